@@ -3,6 +3,7 @@ package drivers
 import (
 	"context"
 	"encoding/json"
+	"fmt"
 	"math/rand"
 	"os"
 	"testing"
@@ -202,3 +203,132 @@ func TestLookupGCP(t *testing.T) {
 		rec.Count("random_runs", 1)
 	}
 }
+
+func randVal(r *rand.Rand) string {
+	switch r.Intn(6) {
+	case 0:
+		return ""
+	case 1:
+		return fmt.Sprintf("I%d", r.Intn(4))
+	default:
+		return fmt.Sprintf("V%d:%d", r.Intn(4), r.Intn(2))
+	}
+}
+
+// genOpScenario draws a scenario for any routing operation.
+func genOpScenario(r *rand.Rand, op string, small bool) *Scenario {
+	sc := genLookupScenario(r, op, small)
+	switch op {
+	case "getvalue", "searchvalue":
+		for i := range sc.Scripts {
+			s := &sc.Scripts[i]
+			s.Val = randVal(r)
+			if s.Val != "" && r.Intn(6) == 0 {
+				s.ValKey = "/v/other"
+			}
+		}
+		if r.Intn(2) == 0 {
+			sc.LocalVal = randVal(r)
+		}
+		sc.Quorum = []int{-1, 0, 1, 2, 3}[r.Intn(5)]
+	case "findprov":
+		for i := range sc.Scripts {
+			if r.Intn(2) == 0 {
+				sc.Scripts[i].Provs = subset(r, sc.N, 0.15+r.Float64()*0.3)
+				if r.Intn(8) == 0 {
+					sc.Scripts[i].Provs = append(sc.Scripts[i].Provs, 0)
+				}
+			}
+		}
+		if r.Intn(2) == 0 {
+			sc.LocalPrv = subset(r, sc.N, 0.2)
+		}
+		sc.Count = []int{0, 1, 2, sc.K, 20}[r.Intn(5)]
+	case "putvalue":
+		sc.PutVal = fmt.Sprintf("V%d:%d", r.Intn(4), r.Intn(2))
+		if r.Intn(8) == 0 {
+			sc.PutVal = fmt.Sprintf("I%d", r.Intn(4))
+		}
+		if r.Intn(2) == 0 {
+			sc.LocalVal = randVal(r)
+		}
+		for i := range sc.Scripts {
+			sc.Scripts[i].PutEcho = pick(r, "", "", "", "other", "fail")
+		}
+	case "provide":
+		for i := range sc.Scripts {
+			sc.Scripts[i].AddProv = pick(r, "", "", "fail")
+		}
+		sc.Timeout = []int{0, 0, 5, 40, 300}[r.Intn(5)]
+		sc.NAddrs = []int{1, 1, 3, 4}[r.Intn(4)]
+		if sc.NAddrs > 1 && r.Intn(2) == 0 {
+			sc.AddrDrop = []int{1 + r.Intn(sc.NAddrs-1)}
+		}
+	}
+	return sc
+}
+
+var allOps = []string{"gcp", "findpeer", "getvalue", "searchvalue", "findprov", "putvalue", "provide"}
+
+// runOpsDriver is the common body of the operation drivers.
+func runOpsDriver(t *testing.T, name string, ops []string, nSmallQ, maxPerQ, nLargeQ int) {
+	e := getEnv(t)
+	rec := newRecorder(t, e, name, "trace = operation x scenario x schedule (delivery order, cancellation point); distinct by event-sequence hash; non-trivial iff a peer failed, lied or the operation was cancelled")
+	defer rec.Close(t, e)
+	if e.Replay != "" {
+		d, err := loadReplay(e.Replay)
+		if err != nil {
+			t.Fatal(err)
+		}
+		ch := &sim.ReplayChooser{Seq: d.Choices}
+		evs := runLookup(t, d.Scenario, ch)
+		rec.Record(evs, replayDesc{d.Scenario, ch.Taken()}, nontrivialLookup(d.Scenario, evs))
+		return
+	}
+	r := rand.New(rand.NewSource(e.Seed))
+	nSmall, maxPer, nLarge := nSmallQ, maxPerQ, nLargeQ
+	if e.Tier == "thorough" {
+		nSmall, maxPer, nLarge = 10*nSmallQ, 5*maxPerQ, 20*nLargeQ
+	}
+	if e.Budget > 0 {
+		nSmall, nLarge = e.Budget, e.Budget
+	}
+	for i := 0; i < nSmall; i++ {
+		op := ops[i%len(ops)]
+		sc := genOpScenario(r, op, true)
+		dfs := &sim.DFS{}
+		for n := 0; n < maxPer; n++ {
+			writeCurrent(e, replayDesc{sc, nil})
+			evs := runLookup(t, sc, dfs)
+			rec.Record(evs, replayDesc{sc, dfs.Taken()}, nontrivialLookup(sc, evs))
+			rec.Count("dfs_runs_"+op, 1)
+			if !dfs.Next() {
+				rec.Count("dfs_exhausted_scenarios", 1)
+				break
+			}
+		}
+	}
+	for i := 0; i < nLarge; i++ {
+		op := ops[i%len(ops)]
+		sc := genOpScenario(r, op, false)
+		ch := sim.NewRandomChooser(r.Int63())
+		writeCurrent(e, replayDesc{sc, nil})
+		evs := runLookup(t, sc, ch)
+		rec.Record(evs, replayDesc{sc, ch.Taken()}, nontrivialLookup(sc, evs))
+		rec.Count("random_runs_"+op, 1)
+	}
+}
+
+// writeCurrent notes the scenario about to run, so that a crash of the
+// process (a panic inside a goroutine of the code under test) can be
+// attributed and replayed.
+func writeCurrent(e Env, d replayDesc) {
+	_ = writeJSON(e.Out+".current.json", map[string]any{"replay": d})
+}
+
+func TestOpsAll(t *testing.T) { runOpsDriver(t, "ops-all", allOps, 42, 40, 210) }
+func TestOpsValue(t *testing.T) {
+	runOpsDriver(t, "ops-value", []string{"getvalue", "searchvalue"}, 40, 50, 200)
+}
+func TestOpsProviders(t *testing.T) { runOpsDriver(t, "ops-findprov", []string{"findprov"}, 40, 50, 200) }
+func TestOpsPut(t *testing.T)       { runOpsDriver(t, "ops-put", []string{"putvalue", "provide"}, 40, 50, 200) }
